@@ -246,7 +246,14 @@ def run(rep, tier, seed):
                     crashes.setdefault("sanitizer:meta:%s:%s" % (variant, crash_sig(o)), []).append(((bytes.fromhex(ln.split(" ")[1]) if ln.split(" ")[1] != "-" else b"", "meta", 0, 0), False, variant, o + " :: " + ln[:20]))
     finally:
         shutil.rmtree(rundir, ignore_errors=True)
-    rep.cov["evaluations"] = total + api_n + rep.cov.get("table_alignment_cases_matching_model", 0)
+    # the scans around emphasis markers: model with checked reads == compiled function under ASan (exact-size text)
+    from checks import ambi
+    abad, an = ambi.part(rep, tier, rng, quick_n=1500, thorough_n=60000, wanted=("ambidextrous-read-outside-text", "ambidextrous-model-reads-outside"))
+    ambi_reported = False
+    for kind, what, rp in abad:
+        if kind != "emphasis-flags-depend-on-context" and not ambi_reported:
+            ambi_reported = rep.violation(kind, what, rp) or ambi_reported
+    rep.cov["evaluations"] = total + api_n + an + rep.cov.get("table_alignment_cases_matching_model", 0)
     rep.cov["conversions_under_sanitizers"] = total
     rep.cov["other_entry_point_calls_under_sanitizers"] = api_n
     rep.cov["traces_validated_against_impl"] = n1
@@ -267,13 +274,16 @@ def run(rep, tier, seed):
             except Exception: pass
         rep.violation(key, "invalid memory access / undefined operation / crash (%d inputs): %s" % (len(lst), err[:900]),
                       dict(case=dict(doc_hex=d.hex(), format=c[1], ext=c[2], lang=c[3], variant=variant, data=data)))
-    if not res["ok"] and not bad and not crashes:
+    if not res["ok"] and not bad and not crashes and not ambi_reported:
         rep.violation("proof-broken", "Properties_C01 no longer checks: %s" % res["failed"],
                       dict(no_failing_input=True, broken="obligations of coq/props/Properties_C01.v (%s)" % res["failed"], coq_output=res.get("output", "")[-3000:]))
 
 
 def replay(rep, r):
     rep.cov.update(evaluations=1, distinct_nontrivial=1, obligations=1, discharged=1, checker_cmd="replay", rule="replay")
+    if str(r.get("key", "")).startswith(("ambidextrous", "emphasis-flags")):
+        from checks import ambi
+        return ambi.replay(rep, r)
     c = r.get("case", r)
     d = bytes.fromhex(c["doc_hex"]) if "doc_hex" in c else c["doc"].encode()
     rep.cov["samples"] = [d[:200].decode("latin-1")]
